@@ -36,7 +36,8 @@ Out(st) == [E0 EXCEPT !.k = "out", !.kind = "ses", !.st = st, !.id = "right",
                       !.frm = "srv", !.wire = Wire]
 OtherStates(s) == {x \in {"new", "negotiating", "authenticating", "established",
                           "finishing", "finished", "failed"} : x # s}
-Noise == {In(x) : x \in {"msg", "not", "req", "resp", "garbage", "junk", "eof"}}
+Noise == {In(x) : x \in {"msg", "not", "req", "resp", "garbage", "junk", "eof", "hybrid"}}
+         \* "hybrid": a message that also carries a `state` member (it is a message: what it carries decides the kind)
 
 FirstSyms  == {Ses("new", "none"), Ses("new", "wrong")}
               \cup {Ses(s, "none") : s \in OtherStates("new")} \cup Noise
